@@ -3,6 +3,7 @@ package c12
 
 import (
 	"encoding/binary"
+	"errors"
 	"fmt"
 	"net"
 	"strings"
@@ -57,6 +58,14 @@ type wop struct {
 	add bool
 	p   prefix
 	idx int // index into the writer's own prefix list
+	// wide: the range is spelled with a 16-byte IPv4 address and a 4-byte mask. The filter may reject that spelling with
+	// ErrInvalidIPv4CIDR (then the call changes nothing) or accept it (then it is the range it spells).
+	wide     bool
+	rejected bool // set by the writer when the filter rejected this call
+}
+
+func ipnetWide(p prefix) *net.IPNet {
+	return &net.IPNet{IP: net.IPv4(byte(p.net>>24), byte(p.net>>16), byte(p.net>>8), byte(p.net)), Mask: net.CIDRMask(p.ones, 32)}
 }
 
 // hot is the per-prefix bookkeeping that lets a reader know whether a range was stable during its lookup:
@@ -106,7 +115,7 @@ func genScenario(t *rapid.T) *scenario {
 		state := make([]bool, np)
 		if rapid.IntRange(0, 2).Draw(t, "startsWithRemoveOfAbsent") == 0 {
 			// the very first thing this writer does is remove a range that was never there
-			script = append(script, wop{false, mine[np-1], np - 1})
+			script = append(script, wop{add: false, p: mine[np-1], idx: np - 1})
 		}
 		for k := 0; k < n; k++ {
 			i := rapid.IntRange(0, np-1).Draw(t, "which")
@@ -118,7 +127,7 @@ func genScenario(t *rapid.T) *scenario {
 				add = !add // a redundant add of a present range or remove of an absent one
 			}
 			state[i] = add
-			script = append(script, wop{add, mine[i], i})
+			script = append(script, wop{add: add, p: mine[i], idx: i, wide: rapid.IntRange(0, 9).Draw(t, "sixteenByteSpelling") == 0})
 		}
 		sc.scripts = append(sc.scripts, script)
 	}
@@ -195,13 +204,25 @@ func run(sc *scenario) (string, outcome) {
 					var err error
 					h := hots[wi][o.idx]
 					h.seq.Add(1) // odd: an update of this range is in flight
+					n := ipnet(o.p)
+					if o.wide {
+						n = ipnetWide(o.p)
+					}
 					if o.add {
-						err = f.Add(ipnet(o.p))
-						if n := adds.Add(1); n == 257 {
-							itersAtCross.Store(iters.Load())
+						err = f.Add(n)
+						if err == nil {
+							if n := adds.Add(1); n == 257 {
+								itersAtCross.Store(iters.Load())
+							}
 						}
 					} else {
-						err = f.Remove(ipnet(o.p))
+						err = f.Remove(n)
+					}
+					if o.wide && errors.Is(err, netutil.ErrInvalidIPv4CIDR) {
+						// rejected spelling: the call changed nothing, the range is what it was
+						script[k].rejected, err = true, nil
+						h.seq.Add(1)
+						continue
 					}
 					h.present.Store(o.add)
 					h.seq.Add(1) // even again: stable until the next update
@@ -296,6 +317,9 @@ func run(sc *scenario) (string, outcome) {
 	}
 	for _, script := range sc.scripts {
 		for _, o := range script {
+			if o.rejected {
+				continue
+			}
 			if o.add {
 				set[o.p] = true
 			} else {
